@@ -797,8 +797,13 @@ def witness_known(V):
     rc = RowCollector({"name": dict(dtype=str)}, array=True)
     rc.append(["hello"])
     got = [str(x) for x in rc.name]
-    if "array-str-trunc" in known_open() and got == ["hello"]:
-        V.notes.append("STALE finding array-str-trunc: the witness no longer fails (mark it fixed)")
+    if "array-str-trunc" in known_open():
+        if got == ["hello"]:
+            V.notes.append("STALE finding array-str-trunc: the witness no longer fails (mark it fixed)")
+    elif got != ["hello"]:            # fixed entry: its witness is an ordinary regression case and suppresses nothing
+        V.fail({"kind": "witness", "call": "RowCollector({'name': dict(dtype=str)}, array=True).append(['hello'])"}, ["hello"], got,
+               "rc: a string appended to a dtype=str array column is not preserved (regression of the fixed finding array-str-trunc)",
+               tags=["unexplained"], failure=FAILURE_TRUNC)
     return got
 
 
@@ -1055,6 +1060,10 @@ def run_replay(V, path):
         acc, rej, _ = validate("trace", [tr])
         print(f"replay {path}: accepted={acc} rejected={rej}")
         bad = 1 not in acc
+    elif s["kind"] == "witness":
+        got = witness_known(V)
+        print(f"replay {path}: witness -> {got}")
+        bad = got != ["hello"]
     else:
         raise C.MachineryError("unknown scenario kind")
     C.cleanup(PID)
